@@ -272,3 +272,16 @@ class HObj(object):
     elif isinstance(d, list):
       d = list(d)
     return HObj(self.kind, self.cls, d, self.escaped)
+
+
+class SElem(object):
+  """element number idx (term) of a symbolic list; path = attribute path taken so far"""
+  __slots__ = ("ref", "idx", "path")
+
+  def __init__(self, ref, idx, path=()):
+    self.ref = ref
+    self.idx = idx
+    self.path = tuple(path)
+
+  def __repr__(self):
+    return "SElem(%r[%s]%s)" % (self.ref, self.idx, "".join("." + p for p in self.path))
